@@ -21,6 +21,8 @@ type Seg struct {
 	X []int  `json:"x,omitempty"` // cut offsets that fall inside an escape sequence (str, pipe)
 	R int    `json:"r,omitempty"` // rint/aopen: offset of the radix letter / the A relative to S
 	T string `json:"t,omitempty"` // tok: special class of the token (nil, final-t)
+	W string `json:"w,omitempty"` // leaf: what the leaf alone denotes ("" = not pinned)
+	C string `json:"c,omitempty"` // tok: kind the token classifier gave
 }
 
 // Form is one top-level form.
@@ -54,6 +56,17 @@ var dirtyKinds = []string{
 	"prefix-nonsymbol-target", // 'nil 't '12 '"s" '#\a ''a '#(1)
 	"float-leading-point",     // .5
 	"integer-point-nondecimal-base",
+	"digits-outside-read-base", // 6 under *read-base* 2 is read as a float
+	"barred-dot-in-list",       // (a |.| b) is read as (a . b)
+}
+
+// avoidedKind tells that a token kind belongs to the avoid set.
+func avoidedKind(kind string) bool {
+	switch kind {
+	case "float-leading-point", "integer-point-nondecimal-base", "digits-outside-read-base":
+		return true
+	}
+	return false
 }
 
 type builder struct {
@@ -278,6 +291,10 @@ var timeTexts = []string{
 func (b *builder) tokenSeg(txt string) (want string, kind string, ok bool) {
 	want, kind, ok = classify(txt, b.base, b.ff)
 	s := b.emit("tok", txt)
+	s.C = kind
+	if ok {
+		s.W = want
+	}
 	switch {
 	case strings.EqualFold(txt, "nil"):
 		s.T = "nil"
@@ -318,8 +335,12 @@ func (b *builder) token() string {
 		if !ok {
 			continue
 		}
-		if kind == "float-leading-point" || kind == "integer-point-nondecimal-base" {
+		if avoidedKind(kind) {
 			continue
+		}
+		if b.dirty == "digits-outside-read-base" && !b.used && b.base < 10 && b.r.IntN(2) == 0 {
+			txt = b.sign(30) + b.decDigits(b.r.IntN(3)) + string(rune('0'+b.base+b.r.IntN(10-b.base)))
+			b.used = true
 		}
 		if b.dirty == "float-leading-point" && !b.used && b.r.IntN(2) == 0 {
 			txt = b.sign(30) + "." + b.decDigits(1+b.r.IntN(3))
@@ -431,6 +452,11 @@ func (b *builder) quoted(kind string, delim byte) (val string) {
 	lit.WriteByte(delim)
 	s := b.emit(kind, lit.String())
 	s.X = xs
+	if kind == "pipe" {
+		s.W = "s:" + strconv.Quote(v.String())
+	} else {
+		s.W = strconv.Quote(v.String())
+	}
 	return v.String()
 }
 
@@ -445,7 +471,7 @@ func (b *builder) pipeLeaf() string {
 		mark := len(b.buf)
 		nseg := len(b.segs)
 		v := b.quoted("pipe", '|')
-		if strings.EqualFold(v, "t") || strings.EqualFold(v, "nil") {
+		if strings.EqualFold(v, "t") || strings.EqualFold(v, "nil") || v == "." {
 			b.buf = b.buf[:mark]
 			b.segs = b.segs[:nseg]
 			continue
@@ -492,8 +518,9 @@ func (b *builder) charLeaf() string {
 		rn, _ = utf8.DecodeRuneInString(txt)
 		b.feat("char:utf8")
 	}
-	b.emit("char", `#\`+txt)
-	return fmt.Sprintf("c:U+%04X", rn)
+	cs := b.emit("char", `#\`+txt)
+	cs.W = fmt.Sprintf("c:U+%04X", rn)
+	return cs.W
 }
 
 func (b *builder) rintLeaf() string {
@@ -519,6 +546,7 @@ func (b *builder) rintLeaf() string {
 	if sg == "-" {
 		x.Neg(x)
 	}
+	b.segs[len(b.segs)-1].W = showInt(x)
 	return showInt(x)
 }
 
@@ -528,7 +556,8 @@ func (b *builder) bitsLeaf() string {
 	for i := range bs {
 		bs[i] = byte('0' + b.r.IntN(2))
 	}
-	b.emit("bits", "#*"+string(bs))
+	bsg := b.emit("bits", "#*"+string(bs))
+	bsg.W = "#*" + string(bs)
 	b.feat("bit-vector")
 	return "#*" + string(bs)
 }
@@ -605,7 +634,7 @@ func (b *builder) listForm(maxDepth int) string {
 			for {
 				txt := b.atomText()
 				w, kind, ok := classify(txt, b.base, b.ff)
-				if !ok || kind == "nil" || kind == "float-leading-point" || kind == "integer-point-nondecimal-base" {
+				if !ok || kind == "nil" || avoidedKind(kind) {
 					continue
 				}
 				b.tokenSeg(txt)
@@ -652,7 +681,7 @@ func (b *builder) simpleAtom() string {
 			txt = b.sign(10) + b.digits(b.base, 1+b.r.IntN(3))
 		}
 		w, kind, ok := classify(txt, b.base, b.ff)
-		if !ok || kind == "float-leading-point" || kind == "integer-point-nondecimal-base" {
+		if !ok || avoidedKind(kind) {
 			continue
 		}
 		b.tokenSeg(txt)
@@ -797,6 +826,37 @@ func (b *builder) prefixForm(maxDepth int, forced string) string {
 	return "{" + p.name + " " + target + "}"
 }
 
+// literalLeaf emits a bare token or a |symbol| given as text.
+func (b *builder) literalLeaf(txt string) string {
+	if 2 <= len(txt) && txt[0] == '|' && txt[len(txt)-1] == '|' {
+		s := b.emit("pipe", txt)
+		s.W = "s:" + strconv.Quote(txt[1:len(txt)-1])
+		b.feat("pipe-symbol")
+		return s.W
+	}
+	w, _, ok := b.tokenSeg(txt)
+	if !ok {
+		b.pin = false
+	}
+	return w
+}
+
+// literalList emits ( e1 e2 … ) of literal leaves.
+func (b *builder) literalList(elems []string) string {
+	b.open("open", "(")
+	var ws []string
+	for i, e := range elems {
+		if 0 < i {
+			b.ws()
+		}
+		ws = append(ws, b.literalLeaf(e))
+	}
+	b.pend = 0
+	b.close(0)
+	b.feat("list")
+	return "(" + join(ws) + ")"
+}
+
 // simpleSymbol emits a token that is a symbol under every *read-base*.
 func (b *builder) simpleSymbol(prefix string) string {
 	txt := prefix + "-" + fwPick(b.r, []string{"x", "y", "k"})
@@ -863,6 +923,10 @@ func (b *builder) formOf(kind string, maxDepth int) string {
 			return b.listForm(maxDepth)
 		}
 		return b.complexForm()
+	case "barred-dot-list":
+		// (a |.| b): the barred symbol sits where the dot of a dotted pair would
+		b.used = true
+		return b.literalList([]string{"a", "|.|", fwPick(b.r, []string{"b", "nil", "12"})})
 	case "prefix1":
 		return b.prefixForm(1, "")
 	case "quote", "function", "backquote", "comma", "commaat":
@@ -898,20 +962,30 @@ func build(r *rand.Rand, base int, ff, dirty string, nForms, maxDepth int, force
 			switch dirty {
 			case "prefix-nonsymbol-target":
 				kind = fwPick(r, []string{"quote", "function", "backquote", "quote"})
-			case "float-leading-point", "integer-point-nondecimal-base":
+			case "float-leading-point", "integer-point-nondecimal-base", "digits-outside-read-base":
 				kind = "token"
+			case "barred-dot-in-list":
+				kind = "barred-dot-list"
 			}
 		}
 		if 0 < i {
 			b.form = -1
-			b.gap(kind == "list")
+			b.gap(kind == "list" || strings.HasPrefix(kind, "=("))
 		}
 		b.form = i
 		b.pin = true
 		start := len(b.buf)
 		first := len(b.segs)
 		b.nodes = 0
-		want := b.formOf(kind, maxDepth)
+		var want string
+		switch {
+		case strings.HasPrefix(kind, "=("):
+			want = b.literalList(strings.Fields(kind[2 : len(kind)-1]))
+		case strings.HasPrefix(kind, "="):
+			want = b.literalLeaf(kind[1:])
+		default:
+			want = b.formOf(kind, maxDepth)
+		}
 		if !b.pin {
 			want = ""
 		}
@@ -928,6 +1002,16 @@ func build(r *rand.Rand, base int, ff, dirty string, nForms, maxDepth int, force
 	c := Case{Text: string(b.buf), Base: base, FF: ff, Segs: b.segs, Forms: b.forms}
 	if dirty != "" && b.used {
 		c.Dirty = dirty
+	}
+	if 0 < len(force) && c.Dirty == "" {
+		// literal probe texts: name the avoided construct they hold, if any
+		for i := range b.segs {
+			g := &b.segs[i]
+			if g.K == "tok" && avoidedKind(g.C) {
+				c.Dirty = g.C
+				break
+			}
+		}
 	}
 	for f := range b.feats {
 		c.Feats = append(c.Feats, f)
